@@ -282,6 +282,130 @@ func runC06(c *Ctx) {
 		}
 	}
 
+	// R5h: where the head ends up. Along every path of Read that takes a packet, the final head is the old head
+	// advanced by 2 + length modulo len(data): evaluated symbolically with store-to-load forwarding; a wrap
+	// "if head >= len(data) { head = 0 }" counts as head - len(data) (the ring invariant head <= len(data) at that
+	// point makes the two equal), the reset of an empty buffer (head == tail: both to 0) is exempt.
+	if countVal != nil {
+		oh := c.Obl("R5h", fname(R), "on every path that takes a packet the head ends at (old head + 2 + packet length) modulo len(data), whatever was copied out: the next header is read where the next packet starts", 2)
+		rp, okP := enumIterPathsU(R, 50000)
+		if !okP {
+			oh.Undecide("the paths of Read could not be enumerated")
+		}
+		recvName := R.Params[0].Name()
+		headKey := recvName + "." + r.head
+		Lf := linSym("len(" + recvName + "." + r.data + ")")
+		failedAt := map[ssa.Instruction]bool{}
+		sitedH := map[string]bool{}
+		nTake := 0
+		for pi := range rp {
+			pt := rp[pi]
+			ret, isRet := pt.last().(*ssa.Return)
+			if !isRet || pt.Loop || ret.Parent() != R || pt.indexOf(countVal.(ssa.Instruction)) < 0 {
+				continue
+			}
+			hasDec := false
+			for _, in := range pt.Instrs {
+				if d, ok := r.fieldDelta(in, r.count); ok && d == -1 {
+					hasDec = true
+				}
+			}
+			if !hasDec {
+				continue
+			}
+			nTake++
+			w := newSymWalker(&pt)
+			ci := 0
+			var lastWrapOf linForm // value of head found >= len(data) by the most recent condition
+			haveWrap := false
+			reset := false
+			var stack []ssa.Value
+			var lastHeadStore ssa.Instruction
+			for idx, in := range pt.Instrs {
+				w.cur = idx
+				if iff, ok := in.(*ssa.If); ok {
+					var ft fact
+					if ci < len(pt.Conds) {
+						ft = pt.Conds[ci]
+					}
+					ci++
+					haveWrap = false
+					if ft.If == iff {
+						if cm, ok := normCmp(ft.Cond, ft.Val); ok && cm.Op == token.LEQ {
+							// len(data) <= head
+							if isLenOf(pt.value(cm.X), func(v ssa.Value) bool { return r.isLoad(pt.valueAt(v, idx), r.data) }) {
+								// the value compared is the head, or the head plus one about to be stored (index helper)
+								cur, okCur := w.mem[headKey]
+								if !okCur {
+									cur = linSym(headKey)
+								}
+								x := w.lin(cm.Y)
+								if d := x.add(cur, -1); d.OK && len(d.Coef) == 0 && d.K >= 0 && d.K <= 1 {
+									lastWrapOf, haveWrap = x, true
+								}
+							}
+						}
+						if emptyHeadTail(r, ft) {
+							reset = true // head == tail established: the buffer is empty, both indices may go to 0
+						}
+					}
+					continue
+				}
+				w.step(in)
+				if st, ok := in.(*ssa.Store); ok && r.isStoreTo(in, r.head) {
+					lastHeadStore = in
+					if sv := w.lin(st.Val); sv.OK && sv.eq(linConst(0)) && haveWrap {
+						w.mem[headKey] = lastWrapOf.add(Lf, -1)
+					}
+				}
+				if h := helperCallee(in); h != nil && idx+1 < len(pt.Instrs) && pt.Instrs[idx+1].Parent() == h {
+					stack = append(stack, in.(*ssa.Call))
+				}
+				if _, isRetI := in.(*ssa.Return); isRetI && len(stack) > 0 && idx+1 < len(pt.Instrs) {
+					w.bindReturn(stack[len(stack)-1])
+					stack = stack[:len(stack)-1]
+				}
+			}
+			if reset {
+				continue
+			}
+			H, ok := w.mem[headKey]
+			if !ok {
+				if !failedAt[ret] {
+					failedAt[ret] = true
+					oh.Fail(ret.Pos(), "a path of Read takes a packet without moving the head")
+				}
+				continue
+			}
+			want := linSym(headKey).add(linConst(2), 1).add(w.lin(countVal), 1)
+			D := H.add(want, -1)
+			okMod := D.OK && D.K == 0
+			for sym, cf := range D.Coef {
+				if sym != Lf.String() && !(len(Lf.Coef) == 1 && Lf.Coef[sym] == 1) {
+					okMod = false
+				}
+				if cf > 0 || cf < -3 {
+					okMod = false
+				}
+			}
+			at := ssa.Instruction(ret)
+			if lastHeadStore != nil {
+				at = lastHeadStore
+			}
+			if k := fmt.Sprintf("%p %s", at, H); !sitedH[k] {
+				sitedH[k] = true
+				oh.Site(at.Pos(), "head ends at %s", H)
+			}
+			if !okMod && !failedAt[at] {
+				failedAt[at] = true
+				oh.Fail(at.Pos(), "on a path that takes a packet the head ends at %s, which is not (head + 2 + length) modulo len(data) = %s - j*len(data): after a short read the rest of the packet would be parsed as the next header", H, want)
+			}
+		}
+		if nTake == 0 {
+			oh.Undecide("no path of Read takes a packet")
+		}
+	}
+
 	// R6 wrap after every advance
 	for _, f := range []*ssa.Function{W, R} {
 		o = c.Obl("R6", fname(f), "after every advance of head/tail the index is compared (freshly loaded) with len(data) and wrapped before it is used or the lock is released", 2)
@@ -1232,4 +1356,13 @@ func isGlobalErrValue(v ssa.Value, pkgPath, name string) bool {
 type retKind struct {
 	ret   ssa.Instruction
 	short bool
+}
+
+// emptyHeadTail: the fact establishes head == tail.
+func emptyHeadTail(r *bufRoles, ft fact) bool {
+	cm, ok := normCmp(ft.Cond, ft.Val)
+	if !ok || cm.Op != token.EQL {
+		return false
+	}
+	return (r.isLoad(cm.X, r.head) && r.isLoad(cm.Y, r.tail)) || (r.isLoad(cm.X, r.tail) && r.isLoad(cm.Y, r.head))
 }
